@@ -435,4 +435,70 @@ pub(crate) mod verif_local {
             )
         })
     }
+
+    /// Which entry point of the missed-span writer `format_missing_call` runs.
+    #[derive(Clone, Copy, Debug, PartialEq, Eq)]
+    pub(crate) enum MissedEntry {
+        Plain,
+        WithIndent,
+        NoIndent,
+    }
+
+    /// One call of `format_missing(end)` / `format_missing_with_indent(end)` /
+    /// `format_missing_no_indent(end)` on a fresh visitor whose snippet provider holds `text`
+    /// exactly as given (`last_pos` and `end` are byte offsets into it), whose buffer holds
+    /// `buffer` and whose `block_indent` is as given. The source map holds a file of the same
+    /// byte length with the same line breaks (`text` itself when rustc's normalisation leaves
+    /// it alone), registered behind a file of `pad` bytes when `pad > 0`, so that the text
+    /// does not start at `BytePos(0)`. Returns the buffer, `line_number`, `last_pos` (offset
+    /// into `text`) afterwards, and the start position of the text in the source map.
+    pub(crate) fn format_missing_call(
+        text: &str,
+        pad: usize,
+        buffer: &str,
+        block_indent: Indent,
+        last_pos: usize,
+        end: usize,
+        entry: MissedEntry,
+        config: &Config,
+    ) -> (String, usize, usize, usize) {
+        rustc_span::create_session_if_not_set_then(config.edition().into(), |_| {
+            let psess = ParseSess::new(config).expect("parse session");
+            let source_map = psess.inner().source_map();
+            if pad > 0 {
+                source_map.new_source_file(
+                    rustc_span::FileName::Custom("pad".to_owned()),
+                    " ".repeat(pad),
+                );
+            }
+            let registered = if text.contains('\r') || text.starts_with('\u{feff}') {
+                let bytes = text.bytes().map(|b| if b == b'\n' { b } else { b' ' });
+                String::from_utf8(bytes.collect()).expect("ascii")
+            } else {
+                text.to_owned()
+            };
+            let file = source_map
+                .new_source_file(rustc_span::FileName::Custom("stdin".to_owned()), registered);
+            let base = file.start_pos;
+            let provider =
+                SnippetProvider::new(base, file.end_position(), Arc::new(text.to_owned()));
+            let mut visitor =
+                FmtVisitor::from_psess(&psess, config, &provider, FormatReport::new());
+            visitor.block_indent = block_indent;
+            visitor.push_str(buffer);
+            visitor.last_pos = base + BytePos::from_usize(last_pos);
+            let end = base + BytePos::from_usize(end);
+            match entry {
+                MissedEntry::Plain => visitor.format_missing(end),
+                MissedEntry::WithIndent => visitor.format_missing_with_indent(end),
+                MissedEntry::NoIndent => visitor.format_missing_no_indent(end),
+            }
+            (
+                std::mem::take(&mut visitor.buffer),
+                visitor.line_number,
+                (visitor.last_pos - base).to_usize(),
+                base.to_usize(),
+            )
+        })
+    }
 }
